@@ -275,7 +275,7 @@ func typeText(t jsonapi.Type) string {
 // here, on the driver, before any task runs; payloads are produced with a
 // private twin of the schema so that tasks only ever read the shared one.
 func drawOps(t *core.Tape, spec *world.SchemaSpec, twin *jsonapi.Schema) []op {
-	n := t.Range(1, 8)
+	n := t.Range(1, t.Bound(8, 16))
 	ops := make([]op, 0, n)
 
 	payload := func(kinds []string) (*world.DocSpec, []byte) {
